@@ -85,12 +85,12 @@ prop("C02",
      note="Also decided: the generator passes parameter_reordering, strip_noops, record_branch_targets, count_temps (unit u9). BOUNDED STAND-IN (native enumeration, not a proof): ops::emit (op selection and operand word order for all 1116 operand-kind combinations) and build_threaded_code (limit placement, branch patching) -- Kani needs > 65 GB for the op_match! expansion. The other bytecode-generator passes (emit_block, dead_store_elim, allocate_temps, zeroing_move_detection: std hash collections, Kani does not finish, Verus rejects) are covered ONLY by a BOUNDED STAND-IN (unit n2_bc_passes: zeroing_move_detection on all sequences of <= 3 instructions over a small alphabet; translate end to end on a fixed pseudo-random sample of structured IR programs against bc_step / IR semantics) -- counted separately, never as proved. NOT decided: the optimiser in front (C01), the release-build tail-call dispatcher. A defect there is not detected by this check.")
 
 prop("C06",
-     units=[("kani", "u2_tape", None), ("kani", "u5_bcint_ops", None), ("kani", "u2b_bccontext", None), ("kani", "u6b_jit_shims", None), ("kani", "u6_jit", None)],
+     units=[("kani", "u2_tape", None), ("kani", "u5_bcint_ops", None), ("kani", "u2b_bccontext", None), ("kani", "u6b_jit_shims", None), ("kani", "u6_jit", None), ("native", "n2_bc_passes", None)],
      level="model_checking",
      technique="Kani contract harnesses: Memory operations over the abstract view from arbitrary well-formed states; window invariant and in-window dereferences of every threaded op (buffer == window, so any stray access is out of bounds for CBMC)",
      design_ref="DESIGN.md section 4-U2/U5, 5-C06",
      text="Tape API: every operation stays inside the owned block and preserves the view across growth in either or both directions (bounded in size, unbounded in history). Threaded ops: window invariant established by enter_ops, preserved by the checked right move incl. growth, every operand access inside the window; temporaries array sized max(temps,2).",
-     note="Relative to C11 (operands inside the declared window, temp index < temps: not discharged). The JIT's checked move (probe of the far window edge against the context's bounds, extend call, pointer re-basing) is decided by unit u6 over all tape geometries. NOT decided: the bytecode interpreter's checked LEFT move/scan that grows below (pointer before the allocation start is not representable in CBMC) and its checked scan loop (timeout).")
+     note="Relative to C11 (operands inside the declared window, temp index < temps): not discharged by a verifier -- covered ONLY by a BOUNDED STAND-IN (unit n2_bc_passes/translate_shape: the window, temporaries count and branch targets of the bytecode bc::CodeGen::translate generates for a fixed pseudo-random sample of IR programs; counted separately, never as proved). The JIT's checked move (probe of the far window edge against the context's bounds, extend call, pointer re-basing) is decided by unit u6 over all tape geometries. NOT decided: the bytecode interpreter's checked LEFT move/scan that grows below (pointer before the allocation start is not representable in CBMC) and its checked scan loop (timeout).")
 
 prop("C10",
      units=[("kani", "u5_bcint_ops", None), ("kani", "u6_jit", None)],
@@ -103,10 +103,10 @@ prop("C10",
 prop("C15",
      units=[("verus", "u4_expr", None), ("native", "n3_expr_ops", None)],
      level="proof",
-     technique="Verus deductive proof on the real ir::Expr methods (extracted, with desugarings D2/D6/D7/D8/D9) against a polynomial evaluation function over an arbitrary assignment, generic in the width",
+     technique="Verus deductive proof on the real ir::Expr methods (extracted, with desugarings D2/D6/D7/D8/D9/D11/D12) against a polynomial evaluation function over an arbitrary assignment, generic in the width",
      design_ref="DESIGN.md section 4-U4, 5-C15",
-     text="Proved fragment: val, var, add (sum), evaluate (evaluation), constant, const_inc_of, identity, constant_part (decompositions) agree with eval(e, rho) = sum coef*prod rho(var) mod 2^bits for every assignment rho and every width. Unbounded.",
-     note="NOT PROVED: mul, mul_parts, neg, half, normalize, symb_evaluate, inc_of, prod_inc_of, prod_of -- closures with captured mutation, iterator adapters and HashMap code that Verus rejects and Kani does not finish; they are covered by a BOUNDED STAND-IN (unit n3_expr_ops: native enumeration of a ~300-member expression family over two variables against the proved evaluate; counted separately, never as proved). NOT decided at all: split_along, codegen. SmallVec is replaced by a Verus-checked Vec wrapper in the verification file (that it refines Vec is C18); slice Ord is assumed to satisfy Equal => equal sequences.")
+     text="Proved fragment: val, var, add (sum), neg (negation), half (halving), evaluate (evaluation), constant, const_inc_of, identity, constant_part, inc_of, prod_inc_of (decompositions; the last two GIVEN that like terms are collected: at most one part is the plain variable) agree with eval(e, rho) = sum coef*prod rho(var) mod 2^bits for every assignment rho and every width. Unbounded.",
+     note="NOT PROVED: mul, mul_parts, normalize, symb_evaluate, prod_of (and the like-terms-collected precondition of inc_of / prod_inc_of as an invariant of every constructor) -- closures with captured mutation, iterator adapters and HashMap code that Verus rejects and Kani does not finish; they are covered by a BOUNDED STAND-IN (unit n3_expr_ops: native enumeration of a ~300-member expression family over two variables, plus ~2400 same-support sums for the unary operations, against the proved evaluate; counted separately, never as proved; it also re-checks the proved operations on expressions produced by mul). split_along: only through its use in loop_motion (unit n4, C14). NOT decided at all: codegen. SmallVec is replaced by a Verus-checked Vec wrapper in the verification file (that it refines Vec is C18); slice Ord is assumed to satisfy Equal => equal sequences.")
 
 prop("C03",
      units=[("kani", "u6_jit", None)],
